@@ -496,10 +496,9 @@ def exlineArithmetic (prg : Prog) : Except String Prog := prg.mapM exlineStm
 
 /-! ## part C – `inline_arithmetic` -/
 
-/-- `rest.ast_type == ASTType.Variable and rest.name == "_"` -/
-def isAnon : Term → Bool
-  | .var "_" => true
-  | _ => false
+/-- `any(x.name == "_" for x in collect_ast(rest, "Variable"))` (before the repair recorded as `fixed:` in
+known_findings.json: `rest` IS the anonymous variable) -/
+def isAnon (t : Term) : Bool := t.vars.contains "_"
 
 /-- `_equality(lit)`: `(name of var, rest)`; `None` if either side is the anonymous variable -/
 def equality? (l : Lit) : Option (String × Term) :=
